@@ -112,3 +112,99 @@ Proof.
     rewrite (Z.mod_small b) by (unfold byte_ok in *; lia). reflexivity. }
   rewrite G by exact Hb. reflexivity.
 Qed.
+
+(* ---- ComputeChecksum / FoldChecksum against the C08 model ---- *)
+From GP Require C08Model C08Proofs C10Model.
+
+Lemma go_FoldChecksum_eq c : 0 <= c < 4294967296 -> go_FoldChecksum c = C08Model.FoldChecksum c.
+Proof.
+  intros Hc. rewrite go_FoldChecksum_spec by exact Hc.
+  rewrite (C08Proofs.fold_correct c Hc). reflexivity.
+Qed.
+
+Lemma pair_ind {A} (P : list A -> Prop) :
+  P [] -> (forall a, P [a]) -> (forall a b t, P t -> P (a :: b :: t)) -> forall l, P l.
+Proof.
+  intros H0 H1 H2. assert (H : forall l, P l /\ forall a, P (a :: l)).
+  { induction l as [|x l [IH1 IH2]]; split; auto. }
+  intros l. apply H.
+Qed.
+
+Lemma nthZ_app_mid1 (pre : list Z) x y t : nthZ (pre ++ x :: y :: t) (S (length pre)) = y.
+Proof. unfold nthZ. rewrite app_nth2 by lia. replace (S (length pre) - length pre)%nat with 1%nat by lia. reflexivity. Qed.
+
+Lemma shiftl8 a : Z.shiftl a 8 = a * 256.
+Proof. rewrite Z.shiftl_mul_pow2 by lia. reflexivity. Qed.
+
+Lemma u32_byte a : byte_ok a -> u32 a = a.
+Proof. unfold byte_ok, u32. intros H. apply Z.mod_small. lia. Qed.
+
+Section CC.
+  Variable data : list Z.
+  Let cond := (fun '(v_csum, v_i) => (v_i : Z) <? Z.of_nat (length data) - 1) : Z * Z -> bool.
+  Let body := (fun '(v_csum, v_i) =>
+      (u32 (u32 (v_csum + u32 (Z.shiftl (u32 (nthZ data (Z.to_nat v_i))) 8)) + u32 (nthZ data (Z.to_nat (v_i + 1)))), v_i + 2)) : Z * Z -> Z * Z.
+  Let final := (fun '(v_csum, v_i) =>
+      if Z.rem (Z.of_nat (length data)) 2 =? 1
+      then u32 (v_csum + u32 (Z.shiftl (u32 (nthZ data (Z.to_nat (Z.of_nat (length data) - 1)))) 8))
+      else v_csum) : Z * Z -> Z.
+
+  Lemma cc_loop : forall rest pre c fuel,
+    data = pre ++ rest -> Nat.even (length pre) = true -> bytes_ok rest ->
+    (length rest <= fuel)%nat ->
+    final (while fuel cond body (c, Z.of_nat (length pre))) = C08Model.ComputeChecksum rest c.
+  Proof.
+    intros rest. induction rest as [| a | a b t IH] using pair_ind; intros pre c fuel Hd Hev Hb Hf.
+    - rewrite while_false.
+      2:{ unfold cond. apply Z.ltb_ge. rewrite Hd, app_nil_r. lia. }
+      unfold final. rewrite Hd, app_nil_r.
+      assert (Hr : Z.rem (Z.of_nat (length pre)) 2 = 0).
+      { rewrite Z.rem_mod_nonneg by lia. apply Nat.even_spec in Hev. destruct Hev as [k Hk]. rewrite Hk. lia. }
+      rewrite Hr. reflexivity.
+    - rewrite while_false.
+      2:{ unfold cond. apply Z.ltb_ge. rewrite Hd, app_length. cbn. lia. }
+      unfold final.
+      assert (Hr : Z.rem (Z.of_nat (length data)) 2 = 1).
+      { rewrite Z.rem_mod_nonneg by lia. rewrite Hd, app_length. cbn [length].
+        apply Nat.even_spec in Hev. destruct Hev as [k Hk]. rewrite Hk. lia. }
+      rewrite Hr. cbn [Z.eqb Pos.eqb].
+      replace (Z.to_nat (Z.of_nat (length data) - 1)) with (length pre) by (rewrite Hd, app_length; cbn; lia).
+      rewrite Hd, nthZ_app_mid. unfold bytes_ok in Hb. inversion Hb as [|? ? Ha ?]; subst.
+      cbn [C08Model.ComputeChecksum]. rewrite (u32_byte a) by assumption. rewrite shiftl8. reflexivity.
+    - destruct fuel as [|fuel]; [cbn in Hf; lia|]. rewrite while_unfold.
+      assert (Hc : cond (c, Z.of_nat (length pre)) = true).
+      { unfold cond. apply Z.ltb_lt. rewrite Hd, app_length. cbn [length]. lia. }
+      rewrite Hc. unfold body at 2.
+      rewrite Nat2Z.id. replace (Z.to_nat (Z.of_nat (length pre) + 1)) with (S (length pre)) by lia.
+      rewrite Hd at 1 2. rewrite nthZ_app_mid, nthZ_app_mid1.
+      unfold bytes_ok in Hb. inversion Hb as [|? ? Ha Hb']; subst. inversion Hb' as [|? ? Hbb Hb'']; subst.
+      rewrite (u32_byte a) by assumption. rewrite (u32_byte b) by assumption. rewrite shiftl8.
+      cbn [C08Model.ComputeChecksum].
+      replace (Z.of_nat (length pre) + 2) with (Z.of_nat (length (pre ++ [a; b]))) by (rewrite app_length; cbn; lia).
+      apply IH.
+      + rewrite <- app_assoc. reflexivity.
+      + rewrite app_length. cbn [length]. rewrite Nat.add_comm. cbn [Nat.add Nat.even]. exact Hev.
+      + assumption.
+      + cbn in Hf. lia.
+  Qed.
+End CC.
+
+Lemma go_ComputeChecksum_eq data c : bytes_ok data -> go_ComputeChecksum data c = C08Model.ComputeChecksum data c.
+Proof.
+  intros Hb. unfold go_ComputeChecksum. cbv zeta.
+  pose proof (cc_loop data data [] c (length data + 64)%nat eq_refl eq_refl Hb ltac:(lia)) as H.
+  cbn [length Z.of_nat] in H. rewrite <- H. reflexivity.
+Qed.
+
+(* ---- tcpassembly Sequence against the C10 model ---- *)
+Lemma go_tcpassembly_Difference_eq s t : go_tcpassembly_Difference s t = C10Model.difference s t.
+Proof.
+  unfold go_tcpassembly_Difference, C10Model.difference.
+  change (C10Model.uint32Size - C10Model.quarter) with 3221225472. change C10Model.quarter with 1073741824.
+  change C10Model.uint32Size with 4294967296.
+  destruct ((s >? 3221225472) && (t <? 1073741824)); [cbv zeta; lia|].
+  destruct ((t >? 3221225472) && (s <? 1073741824)); cbv zeta; lia.
+Qed.
+
+Lemma go_tcpassembly_Add_model_eq s t : go_tcpassembly_Add s t = C10Model.seq_add s t.
+Proof. reflexivity. Qed.
